@@ -132,19 +132,32 @@ func genHistory(r *gen.Rand, f gen.Flags) history {
 	for round := 0; round < rounds; round++ {
 		var st stepRec
 		if round > 0 {
+			next := map[string]map[string]ent{}
+			why := map[string][]string{}
 			for _, b := range branches {
+				next[b] = cloneTree(state[b])
 				if !r.Chance(2, 3) {
 					continue
 				}
-				t := cloneTree(state[b])
-				var why []string
 				nops := r.Range(1, 3)
 				for k := 0; k < nops; k++ {
-					why = append(why, mutate(r, t, b, branches, state, prev[b], &st))
+					why[b] = append(why[b], mutate(r, next[b], b, branches, state, prev[b], &st))
+				}
+			}
+			if r.Chance(1, 2) {
+				if w := correlate(r, branches, next); w != "" {
+					for _, b := range branches {
+						why[b] = append(why[b], w)
+					}
+				}
+			}
+			for _, b := range branches {
+				if len(why[b]) == 0 {
+					continue
 				}
 				prev[b] = append(prev[b], state[b])
-				state[b] = t
-				st.Commits = append(st.Commits, commitRec{Branch: b, Tree: cloneTree(t), Why: strings.Join(why, ",")})
+				state[b] = next[b]
+				st.Commits = append(st.Commits, commitRec{Branch: b, Tree: cloneTree(next[b]), Why: strings.Join(why[b], ",")})
 			}
 			// a mutation may have touched other branches (move between branches): commit those too
 		}
@@ -166,6 +179,105 @@ func genHistory(r *gen.Rand, f gen.Flags) history {
 		h.Steps = append(h.Steps, st)
 	}
 	return h
+}
+
+// genMatrix generates the systematic cross-branch history: one path for every combination of per-branch
+// (state at the last run, change before the delta run) over {absent/none, absent/add, present/none, present/modify,
+// present/delete} — 5^nb paths — so that every pattern of "branch X adds / modifies / deletes P while branch Y adds /
+// modifies / deletes / keeps / lacks P in the same delta window" occurs, for the given order of the indexed branches.
+// A third run applies the reverse changes (again as a delta).
+func genMatrix(r *gen.Rand, branches []string) history {
+	h := history{Kind: "matrix", Contents: baseContents()}
+	nb := len(branches)
+	n := 1
+	for i := 0; i < nb; i++ {
+		n *= 5
+	}
+	before := map[string]map[string]ent{}
+	after := map[string]map[string]ent{}
+	for _, b := range branches {
+		before[b], after[b] = map[string]ent{}, map[string]ent{}
+	}
+	for i := 0; i < n; i++ {
+		p := fmt.Sprintf("m/%03d.txt", i)
+		code := i
+		shared := r.Intn(9) // a content several branches may share
+		for _, b := range branches {
+			st := code % 5
+			code /= 5
+			pick := func() int {
+				if r.Bool() {
+					return shared
+				}
+				return r.Intn(9)
+			}
+			switch st {
+			case 0: // absent, stays absent
+			case 1: // absent, added
+				after[b][p] = ent{Content: pick(), Mode: "100644"}
+			case 2: // present, unchanged
+				e := ent{Content: pick(), Mode: "100644"}
+				before[b][p], after[b][p] = e, e
+			case 3: // present, modified
+				c := pick()
+				before[b][p] = ent{Content: c, Mode: "100644"}
+				after[b][p] = ent{Content: (c + 1 + r.Intn(7)) % 9, Mode: "100644"}
+			case 4: // present, deleted
+				before[b][p] = ent{Content: pick(), Mode: "100644"}
+			}
+		}
+	}
+	commits := func(trees map[string]map[string]ent, why string) []commitRec {
+		var cs []commitRec
+		for _, b := range branches {
+			cs = append(cs, commitRec{Branch: b, Tree: cloneTree(trees[b]), Why: why})
+		}
+		return cs
+	}
+	idx := func(delta bool) *indexRec { return &indexRec{Delta: delta, Branches: append([]string{}, branches...)} }
+	h.Steps = []stepRec{
+		{Commits: commits(before, "matrix-init"), Index: idx(false)},
+		{Commits: commits(after, "matrix-forward"), Index: idx(true)},
+		{Commits: commits(before, "matrix-reverse"), Index: idx(true)},
+	}
+	return h
+}
+
+// correlate applies a pair of changes to the same path on two different branches in one round: the change patterns
+// a delta build has to get right across branches (X adds P while Y modifies or deletes it, both modify, …).
+func correlate(r *gen.Rand, branches []string, trees map[string]map[string]ent) string {
+	if len(branches) < 2 {
+		return ""
+	}
+	i := r.Intn(len(branches))
+	j := (i + 1 + r.Intn(len(branches)-1)) % len(branches)
+	x, y := trees[branches[i]], trees[branches[j]]
+	p := gen.Pick(r, allPaths)
+	if conflicts(x, p) || conflicts(y, p) {
+		return ""
+	}
+	apply := func(t map[string]ent) string {
+		e, ok := t[p]
+		switch {
+		case !ok:
+			t[p] = ent{Content: r.Intn(9), Mode: "100644"}
+			return "add"
+		case ok && e.Mode == "160000":
+			return "keep"
+		case r.Bool():
+			delete(t, p)
+			return "delete"
+		default:
+			e.Content = (e.Content + 1 + r.Intn(7)) % 9
+			t[p] = e
+			return "modify"
+		}
+	}
+	a, b := apply(x), apply(y)
+	if i > j {
+		a, b = b, a
+	}
+	return "pair:" + a + "+" + b
 }
 
 // genSpecial generates a short history outside the Lean model: a path changing between file and submodule link
@@ -835,6 +947,16 @@ func main() {
 	if os.Getenv("C13_ONLY_SPECIAL") == "" {
 		for i := 0; i < n; i++ {
 			rn.run(genHistory(r.Fork(), f), fmt.Sprint(i))
+		}
+	}
+	for i := 0; i < f.N(1, 8); i++ {
+		mr := r.Fork()
+		rn.run(genMatrix(mr, []string{"main", "dev"}), "matrix")
+		rn.run(genMatrix(mr, []string{"dev", "main"}), "matrix")
+		if i%2 == 0 {
+			three := []string{"main", "dev", "rel"}
+			gen.Shuffle(mr, three)
+			rn.run(genMatrix(mr, three), "matrix")
 		}
 	}
 	for i := 0; i < f.N(1, 10); i++ {
